@@ -393,6 +393,30 @@ pub fn drive_focus_histories(t: &Tier, sink: &mut Sink, ops: &[&str], rops: &[us
 /// C18, deterministic part: reserve / shrink_to_fit / with_capacity at lengths on and next to every
 /// 64-bit boundary and the inline limit, with one word, less than a word and several words to spare.
 pub fn drive_c18_targeted(t: &Tier, sink: &mut Sink, stats: &mut Stats) {
+    // large requests: with_capacity(c) / reserve(c) must really provide c (no silent cap)
+    for kind in [Kind::D, Kind::A] {
+        for c in [1000usize, 4096, 4097, 5000, 65536, 100_001, 1 << 20] {
+            let mut evs = Vec::new();
+            let mut w = AnyBv::fresh(kind, &[]);
+            let st = Step::new("with_capacity").a(Args::n(c));
+            let pre = observe(&w);
+            let (o, py, yd, _) = run_step(&mut w, &st);
+            let post = observe(&w);
+            evs.push(base_event(&st, 1, "cap", t.dbg, &w, &pre, yd, &post, py, &o));
+            let mut x = AnyBv::fresh(kind, &[1, 0, 1]);
+            for st in [Step::new("reserve").a(Args::n(c)), Step::new("push").a(Args { bit: Some(1), ..Default::default() }), Step::new("shrink_to_fit")] {
+                let nb = (st.op == "reserve") as u8;
+                let pre = observe(&x);
+                let (o, py, yd, _) = run_step(&mut x, &st);
+                let post = observe(&x);
+                evs.push(base_event(&st, nb, "cap", t.dbg, &x, &pre, yd, &post, py, &o));
+                stats.execs += 1;
+            }
+            stats.execs += 1;
+            stats.histories += 1;
+            sink.emit(evs);
+        }
+    }
     let lens = [0usize, 1, 63, 64, 65, 127, 128, 129, 191, 192, 193, 255, 256, 257];
     let extras = [0usize, 1, 63, 64, 65, 128, 200];
     for kind in [Kind::D, Kind::A] {
